@@ -1,6 +1,7 @@
 package main
 
 import (
+	"strings"
 	"fmt"
 	"go/ast"
 	"go/token"
@@ -165,76 +166,446 @@ func compatibleShape(rel string) func() string {
 	}
 }
 
+// windowOrigins: where the values stored in the validated configuration's field f (directly, through the pointer, or handed back by
+// a same-file helper whose results are assigned to it) can come from: "AsTime:<proto field>" (that field of the function's config
+// parameter, converted by AsTime and nothing else), "nil", "fresh" (new storage, to be filled through the pointer), or
+// "other:<source>". Locals (block-scoped), `&x` / `*p`, if-init definitions and helper results are followed.
+type woCtx struct {
+	fd   *ast.FuncDecl
+	bind map[string]ast.Expr // parameter -> argument (in the caller's terms), for helpers
+	up   *woCtx
+}
+
+// woAnalysis bundles the value-origin functions over one file.
+type woAnalysis struct {
+	file         *ast.File
+	defsOf       func(fn *ast.FuncDecl, name string, at token.Pos) ([]ast.Expr, bool)
+	isParam      func(fn *ast.FuncDecl, name string) bool
+	protoField   func(c *woCtx, e ast.Expr, depth int) string
+	origins      func(c *woCtx, e ast.Expr, depth int, into map[string]bool)
+	helperResult func(c *woCtx, call *ast.CallExpr, i int, into map[string]bool) bool
+	helperCtx    func(c *woCtx, call *ast.CallExpr) *woCtx
+}
+
+func newWoAnalysis(file *ast.File) *woAnalysis {
+	an := &woAnalysis{file: file}
+	// defsOf: the right-hand sides assigned to the variable called name that is visible at position at (Go block scoping: the
+	// innermost declaration whose scope contains the use, plus every plain assignment to it inside that scope)
+	defsOf := func(fn *ast.FuncDecl, name string, at token.Pos) (rhs []ast.Expr, zero bool) {
+		type def struct {
+			e          ast.Expr
+			zero       bool
+			declares   bool
+			pos        token.Pos
+			sFrom, sTo token.Pos // scope of the declaration (for declares), else unused
+		}
+		var all []def
+		var stack []ast.Node
+		scopeOf := func() (token.Pos, token.Pos) {
+			for i := len(stack) - 1; i >= 0; i-- {
+				switch n := stack[i].(type) {
+				case *ast.BlockStmt, *ast.IfStmt, *ast.ForStmt, *ast.RangeStmt, *ast.SwitchStmt, *ast.TypeSwitchStmt, *ast.CaseClause, *ast.FuncLit:
+					return n.Pos(), n.End()
+				}
+			}
+			return fn.Body.Pos(), fn.Body.End()
+		}
+		ast.Inspect(fn.Body, func(n ast.Node) bool {
+			if n == nil {
+				stack = stack[:len(stack)-1]
+				return true
+			}
+			switch x := n.(type) {
+			case *ast.AssignStmt:
+				if len(x.Lhs) == len(x.Rhs) {
+					for i := range x.Lhs {
+						if id, ok := x.Lhs[i].(*ast.Ident); ok && id.Name == name {
+							a, b := scopeOf()
+							all = append(all, def{e: x.Rhs[i], declares: x.Tok == token.DEFINE, pos: x.Pos(), sFrom: a, sTo: b})
+						}
+					}
+				}
+			case *ast.ValueSpec:
+				for i, nm := range x.Names {
+					if nm.Name == name {
+						a, b := scopeOf()
+						d := def{declares: true, pos: x.Pos(), sFrom: a, sTo: b}
+						if i < len(x.Values) {
+							d.e = x.Values[i]
+						} else {
+							d.zero = true
+						}
+						all = append(all, d)
+					}
+				}
+			}
+			stack = append(stack, n)
+			return true
+		})
+		// the innermost declaring scope that contains the use
+		var from, to token.Pos
+		found := false
+		for _, d := range all {
+			if d.declares && d.sFrom <= at && at <= d.sTo && (!found || d.sFrom >= from) {
+				from, to, found = d.sFrom, d.sTo, true
+			}
+		}
+		for _, d := range all {
+			if found && (d.pos < from || d.pos > to) {
+				continue
+			}
+			if found && d.declares && (d.sFrom != from || d.sTo != to) {
+				continue // a shadowing declaration in a nested scope
+			}
+			if d.zero {
+				zero = true
+			} else {
+				rhs = append(rhs, d.e)
+			}
+		}
+		return
+	}
+	isParam := func(fn *ast.FuncDecl, name string) bool {
+		for _, fl := range fn.Type.Params.List {
+			for _, nm := range fl.Names {
+				if nm.Name == name {
+					return true
+				}
+			}
+		}
+		return false
+	}
+	// protoField: e denotes <config parameter of the OUTERMOST function>.NotAfterStart / .NotAfterLimit
+	var protoField func(c *woCtx, e ast.Expr, depth int) string
+	protoField = func(c *woCtx, e ast.Expr, depth int) string {
+		if depth > 6 {
+			return ""
+		}
+		switch x := e.(type) {
+		case *ast.ParenExpr:
+			return protoField(c, x.X, depth)
+		case *ast.SelectorExpr:
+			if x.Sel.Name == "NotAfterStart" || x.Sel.Name == "NotAfterLimit" {
+				if id, ok := x.X.(*ast.Ident); ok {
+					// the receiver must be the configuration parameter, possibly handed down to a helper
+					cc, name := c, id.Name
+					for cc != nil {
+						if a, bound := cc.bind[name]; bound {
+							aid, ok := a.(*ast.Ident)
+							if !ok {
+								return ""
+							}
+							name, cc = aid.Name, cc.up
+							continue
+						}
+						break
+					}
+					if cc != nil && cc.up == nil && isParam(cc.fd, name) {
+						return x.Sel.Name
+					}
+				}
+			}
+		case *ast.Ident:
+			rhs, _ := defsOf(c.fd, x.Name, x.Pos())
+			if len(rhs) == 1 {
+				return protoField(c, rhs[0], depth+1)
+			}
+		}
+		return ""
+	}
+	var origins func(c *woCtx, e ast.Expr, depth int, into map[string]bool)
+	origins = func(c *woCtx, e ast.Expr, depth int, into map[string]bool) {
+		if depth > 8 {
+			into["other:too deep"] = true
+			return
+		}
+		switch x := e.(type) {
+		case *ast.ParenExpr:
+			origins(c, x.X, depth, into)
+			return
+		case *ast.Ident:
+			if x.Name == "nil" {
+				into["nil"] = true
+				return
+			}
+			rhs, zero := defsOf(c.fd, x.Name, x.Pos())
+			if zero {
+				into["nil"] = true
+			}
+			if len(rhs) == 0 && !zero {
+				into["other:"+x.Name] = true
+			}
+			for _, r := range rhs {
+				origins(c, r, depth+1, into)
+			}
+			return
+		case *ast.UnaryExpr:
+			if x.Op == token.AND {
+				if cl, ok := x.X.(*ast.CompositeLit); ok && len(cl.Elts) == 0 {
+					into["fresh"] = true
+					return
+				}
+				origins(c, x.X, depth+1, into)
+				return
+			}
+		case *ast.StarExpr:
+			origins(c, x.X, depth+1, into)
+			return
+		case *ast.CallExpr:
+			if sel, ok := x.Fun.(*ast.SelectorExpr); ok && sel.Sel.Name == "AsTime" && len(x.Args) == 0 {
+				if pf := protoField(c, sel.X, 0); pf != "" {
+					into["AsTime:"+pf] = true
+					return
+				}
+			}
+			if id, ok := x.Fun.(*ast.Ident); ok && id.Name == "new" {
+				into["fresh"] = true
+				return
+			}
+		}
+		into["other:"+norm(src(e))] = true
+	}
+	// helperResult: origins of the i-th result of a same-file helper called as call
+	resolve := func(call *ast.CallExpr) *ast.FuncDecl {
+		var h *ast.FuncDecl
+		switch fn := call.Fun.(type) {
+		case *ast.Ident:
+			h = findFunc(file, fn.Name)
+		case *ast.SelectorExpr:
+			for _, d := range file.Decls {
+				if g, ok := d.(*ast.FuncDecl); ok && g.Recv != nil && g.Name.Name == fn.Sel.Name {
+					h = g
+				}
+			}
+		}
+		if h == nil || h.Body == nil {
+			return nil
+		}
+		return h
+	}
+	helperCtx := func(c *woCtx, call *ast.CallExpr) *woCtx {
+		h := resolve(call)
+		if h == nil {
+			return nil
+		}
+		hc := &woCtx{fd: h, bind: map[string]ast.Expr{}, up: c}
+		k := 0
+		for _, fl := range h.Type.Params.List {
+			for _, nm := range fl.Names {
+				if k < len(call.Args) {
+					hc.bind[nm.Name] = call.Args[k]
+				}
+				k++
+			}
+		}
+		return hc
+	}
+	helperResult := func(c *woCtx, call *ast.CallExpr, i int, into map[string]bool) bool {
+		hc := helperCtx(c, call)
+		if hc == nil {
+			return false
+		}
+		ast.Inspect(hc.fd.Body, func(n ast.Node) bool {
+			if _, isLit := n.(*ast.FuncLit); isLit {
+				return false
+			}
+			if r, ok := n.(*ast.ReturnStmt); ok && i < len(r.Results) {
+				origins(hc, r.Results[i], 0, into)
+			}
+			return true
+		})
+		return true
+	}
+	an.defsOf, an.isParam, an.protoField, an.origins, an.helperResult, an.helperCtx = defsOf, isParam, protoField, origins, helperResult, helperCtx
+	return an
+}
+
+// windowOrigins: see woAnalysis; the stores into field f of the validated configuration built by fd.
+func windowOrigins(file *ast.File, fd *ast.FuncDecl, f string) map[string]bool {
+	an := newWoAnalysis(file)
+	origins, helperResult, isParam := an.origins, an.helperResult, an.isParam
+	out := map[string]bool{}
+	top := &woCtx{fd: fd, bind: map[string]ast.Expr{}}
+	isField := func(e ast.Expr) (deref, ok bool) {
+		if st, isStar := e.(*ast.StarExpr); isStar {
+			e, deref = st.X, true
+		}
+		sel, isSel := e.(*ast.SelectorExpr)
+		if !isSel || sel.Sel.Name != f {
+			return false, false
+		}
+		// the validated configuration is the function's first RESULT type's value: any local other than the config parameter
+		if id, isId := sel.X.(*ast.Ident); isId && !isParam(fd, id.Name) {
+			return deref, true
+		}
+		return false, false
+	}
+	ast.Inspect(fd.Body, func(n ast.Node) bool {
+		switch x := n.(type) {
+		case *ast.AssignStmt:
+			for i, l := range x.Lhs {
+				if _, ok := isField(l); !ok {
+					continue
+				}
+				switch {
+				case len(x.Rhs) == len(x.Lhs):
+					origins(top, x.Rhs[i], 0, out)
+				case len(x.Rhs) == 1:
+					if call, ok := x.Rhs[0].(*ast.CallExpr); !ok || !helperResult(top, call, i, out) {
+						out["other:"+norm(src(x))] = true
+					}
+				}
+			}
+		case *ast.KeyValueExpr: // `&ValidatedLogConfig{NotAfterStart: v, …}`
+			if id, ok := x.Key.(*ast.Ident); ok && id.Name == f {
+				origins(top, x.Value, 0, out)
+			}
+		}
+		return true
+	})
+	return out
+}
+
+// windowRefusedByRole: the "limit before start" test of configuration validation found by what its operands ARE rather than what they
+// are called: the one `if` in ValidateLogConfig (or a same-file helper it calls) whose condition contains a Before/After comparison
+// and whose body returns. Operands are classified by origin (the validated bound or the proto field of start / limit) and the condition
+// is re-emitted over `start limit : Option Int`.
+func windowRefusedByRole(rel, leanName string) string {
+	file := parseFile(rp(rel))
+	top := mustFunc(rel, "ValidateLogConfig")
+	an := newWoAnalysis(file)
+	type cand struct {
+		c  *woCtx
+		is *ast.IfStmt
+	}
+	var cands []cand
+	scan := func(c *woCtx) {
+		ast.Inspect(c.fd.Body, func(n ast.Node) bool {
+			if is, ok := n.(*ast.IfStmt); ok && hasReturn(is.Body.List) {
+				t := norm(src(is.Cond))
+				if strings.Contains(t, ".Before(") || strings.Contains(t, ".After(") {
+					cands = append(cands, cand{c, is})
+				}
+			}
+			return true
+		})
+	}
+	root := &woCtx{fd: top, bind: map[string]ast.Expr{}}
+	scan(root)
+	ast.Inspect(top.Body, func(n ast.Node) bool {
+		if call, ok := n.(*ast.CallExpr); ok {
+			if hc := an.helperCtx(root, call); hc != nil && hc.fd != top {
+				scan(hc)
+			}
+		}
+		return true
+	})
+	role := func(c *woCtx, e ast.Expr) string {
+		for {
+			switch x := e.(type) {
+			case *ast.ParenExpr:
+				e = x.X
+				continue
+			case *ast.StarExpr:
+				e = x.X
+				continue
+			}
+			break
+		}
+		if pf := an.protoField(c, e, 0); pf != "" {
+			return map[string]string{"NotAfterStart": "start", "NotAfterLimit": "limit"}[pf]
+		}
+		o := map[string]bool{}
+		if sel, ok := e.(*ast.SelectorExpr); ok && (sel.Sel.Name == "NotAfterStart" || sel.Sel.Name == "NotAfterLimit") {
+			// a field of the validated configuration under construction: what was stored there
+			o = windowOrigins(file, top, sel.Sel.Name)
+		} else {
+			an.origins(c, e, 0, o)
+		}
+		r := ""
+		for k := range o {
+			switch k {
+			case "AsTime:NotAfterStart":
+				if r != "" && r != "start" {
+					return ""
+				}
+				r = "start"
+			case "AsTime:NotAfterLimit":
+				if r != "" && r != "limit" {
+					return ""
+				}
+				r = "limit"
+			case "nil", "fresh":
+			default:
+				return ""
+			}
+		}
+		return r
+	}
+	var tr func(c *woCtx, e ast.Expr) string
+	tr = func(c *woCtx, e ast.Expr) string {
+		switch x := e.(type) {
+		case *ast.ParenExpr:
+			return tr(c, x.X)
+		case *ast.UnaryExpr:
+			if x.Op == token.NOT {
+				return "(!" + tr(c, x.X) + ")"
+			}
+		case *ast.BinaryExpr:
+			switch x.Op {
+			case token.LAND:
+				return "(" + tr(c, x.X) + " && " + tr(c, x.Y) + ")"
+			case token.LOR:
+				return "(" + tr(c, x.X) + " || " + tr(c, x.Y) + ")"
+			case token.NEQ, token.EQL:
+				if id, ok := x.Y.(*ast.Ident); ok && id.Name == "nil" {
+					if r := role(c, x.X); r != "" {
+						if x.Op == token.NEQ {
+							return r + ".isSome"
+						}
+						return r + ".isNone"
+					}
+				}
+			}
+		case *ast.CallExpr:
+			if sel, ok := x.Fun.(*ast.SelectorExpr); ok && len(x.Args) == 1 && (sel.Sel.Name == "Before" || sel.Sel.Name == "After") {
+				a, b := role(c, sel.X), role(c, x.Args[0])
+				if a != "" && b != "" {
+					op := "<"
+					if sel.Sel.Name == "After" {
+						op = ">"
+					}
+					return "(decide ((" + a + ".getD 0) " + op + " (" + b + ".getD 0)))"
+				}
+			}
+		}
+		panic(bail{rel + ": window test: cannot read " + src(e) + " as a statement about the configured bounds"})
+	}
+	if len(cands) != 1 {
+		panic(bail{fmt.Sprintf("%s: expected exactly one Before/After test with a return in ValidateLogConfig or its helpers, found %d", rel, len(cands))})
+	}
+	cond := tr(cands[0].c, cands[0].is.Cond)
+	return fmt.Sprintf("/-- generated from %s func ValidateLogConfig: `if %s` -/\ndef %s (start limit : Option Int) : Bool :=\n  %s\n", rel, src(cands[0].is.Cond), leanName, cond)
+}
+
 // windowVerbatimShape checks that the configured NotAfter bounds reach ValidateChain unchanged:
 // `*vCfg.NotAfterStart = start.AsTime()`, `*vCfg.NotAfterLimit = limit.AsTime()` in ValidateLogConfig and
 // `notAfterStart: vCfg.NotAfterStart`, `notAfterLimit: vCfg.NotAfterLimit` in setUpLogInfo.
 func windowVerbatimShape() func() string {
 	return func() string {
-		cfg := mustFunc("trillian/ctfe/config.go", "ValidateLogConfig")
-		// what the two proto fields are called locally (`start, limit := cfg.NotAfterStart, cfg.NotAfterLimit`)
-		protoOf := map[string]string{"cfg.NotAfterStart": "NotAfterStart", "cfg.NotAfterLimit": "NotAfterLimit"}
-		defs := map[string][]ast.Expr{} // local -> right-hand sides of its definitions / assignments
-		for _, st := range findStmts(cfg, func(s ast.Stmt) bool { _, ok := s.(*ast.AssignStmt); return ok }) {
-			a := st.(*ast.AssignStmt)
-			if len(a.Lhs) == len(a.Rhs) {
-				for i := range a.Lhs {
-					if id, ok := a.Lhs[i].(*ast.Ident); ok {
-						defs[id.Name] = append(defs[id.Name], a.Rhs[i])
-					}
+		cfgRel := "trillian/ctfe/config.go"
+		cfg := mustFunc(cfgRel, "ValidateLogConfig")
+		file := parseFile(rp(cfgRel))
+		for _, f := range []string{"NotAfterStart", "NotAfterLimit"} {
+			o := windowOrigins(file, cfg, f)
+			for k := range o {
+				if k != "AsTime:"+f && k != "nil" && k != "fresh" {
+					panic(bail{cfgRel + ": the configured bound " + f + " is no longer stored verbatim: it can come from " + k})
 				}
 			}
-		}
-		for name, ds := range defs {
-			if len(ds) == 1 {
-				if f, ok := protoOf[norm(src(ds[0]))]; ok {
-					protoOf[name] = f
-				}
+			if !o["AsTime:"+f] {
+				panic(bail{cfgRel + ": no store of <config>." + f + ".AsTime() into the validated configuration found"})
 			}
-		}
-		// asTimeOf: e is `<proto field>.AsTime()`, possibly through one single-assignment local
-		var asTimeOf func(e ast.Expr, depth int) string
-		asTimeOf = func(e ast.Expr, depth int) string {
-			if c, ok := e.(*ast.CallExpr); ok && len(c.Args) == 0 {
-				if sel, ok := c.Fun.(*ast.SelectorExpr); ok && sel.Sel.Name == "AsTime" {
-					return protoOf[norm(src(sel.X))]
-				}
-			}
-			if id, ok := e.(*ast.Ident); ok && depth < 2 && len(defs[id.Name]) == 1 {
-				return asTimeOf(defs[id.Name][0], depth+1)
-			}
-			return ""
-		}
-		stored := map[string]int{}
-		for _, st := range findStmts(cfg, func(s ast.Stmt) bool { _, ok := s.(*ast.AssignStmt); return ok }) {
-			a := st.(*ast.AssignStmt)
-			if len(a.Lhs) != 1 || len(a.Rhs) != 1 {
-				continue
-			}
-			l := norm(src(a.Lhs[0]))
-			for _, f := range []string{"NotAfterStart", "NotAfterLimit"} {
-				switch l {
-				case "*vCfg." + f: // the value is written through the pointer
-					if asTimeOf(a.Rhs[0], 0) != f {
-						panic(bail{"trillian/ctfe/config.go: the configured bound is no longer stored verbatim: " + src(a)})
-					}
-					stored[f]++
-				case "vCfg." + f: // the pointer is set: to fresh storage (filled by the case above) or to a local holding the value
-					r := a.Rhs[0]
-					if u, ok := r.(*ast.UnaryExpr); ok && u.Op == token.AND {
-						if _, isLit := u.X.(*ast.CompositeLit); isLit {
-							continue
-						}
-						if asTimeOf(u.X, 0) == f {
-							stored[f]++
-							continue
-						}
-					}
-					panic(bail{"trillian/ctfe/config.go: the configured bound is no longer stored verbatim: " + src(a)})
-				}
-			}
-		}
-		if stored["NotAfterStart"] != 1 || stored["NotAfterLimit"] != 1 {
-			panic(bail{"trillian/ctfe/config.go: assignments of the NotAfter bounds not found exactly once each"})
 		}
 		inst := mustFunc("trillian/ctfe/instance.go", "setUpLogInfo")
 		n := 0
